@@ -109,6 +109,10 @@ def tree_desc(draw, max_top=3, max_depth=3, allow_empty=False, family_filter=Non
     checksums = draw(st.dictionaries(st.one_of(option_name, ini_path.filter(lambda p: "=" not in p and ":" not in p)).map(_norm_rel).filter(
         lambda p: p and p[0] not in "#;[/" and p.strip() == p), st.tuples(checksum_type, checksum_value).map(list), max_size=4)) if draw(st.booleans()) else {}
     if draw(st.integers(0, 3)) == 0:
+        # names that share a prefix and go on with '/' in one case and with a character sorting below '/' in the other
+        for key in draw(gen.subsets(["images/boot.iso", "images-extra/data.img", "images.old/boot.iso", "repodata/repomd.xml", "repodata.old/repomd.xml", "a b/c", "a/b", "a+b/c"], min_size=2)):
+            checksums.setdefault(key, ["sha256", "ef" * 32])
+    if draw(st.integers(0, 3)) == 0:
         # entries that did not go through add(): the key is whatever spelling the producer used
         raw = draw(st.sampled_from(["./images/boot.iso", "images//boot.iso", "a/../b", "images/./boot.iso", "repodata/"]))
         checksums[raw] = ["sha256", "ab" * 32]
@@ -158,10 +162,12 @@ def build_ti_variant(ti, node, rnd=None, made_for=None):
     return v
 
 
-def attach(ti, container, nodes, rnd, top, made_for=None):
+def attach(ti, container, nodes, rnd, top, made_for=None, id_keys=False):
     for node in _shuffled(nodes, rnd):
         v = build_ti_variant(ti, node, rnd, made_for)
-        if top:
+        if top and id_keys:
+            container.add(v)                # the plain call of the docstrings: a dashed top-level variant is held under its id
+        elif top:
             # top-level variants are stored under their UID (what the loader does; identical to the id in the common case)
             container.add(v, variant_id=node["uid"]) if node["uid"] != node["id"] else container.add(v)
         else:
@@ -191,7 +197,7 @@ def build_ti(desc, plan=0):
             if desc.get("variants_made_for"):
                 made_for = TreeInfo()
                 made_for.tree.arch, made_for.tree.build_timestamp = desc["variants_made_for"]["arch"], desc["variants_made_for"]["timestamp"]
-            attach(ti, ti.variants, desc["variants"], rnd, True, made_for)
+            attach(ti, ti.variants, desc["variants"], rnd, True, made_for, desc.get("top_level_keys") == "id")
         elif step == "images":
             for plat in _shuffled(sorted(desc["images"]), rnd):
                 table = ti.images.images.setdefault(plat, {})
@@ -304,13 +310,14 @@ def section_name(node):
 
 def expected_general(desc, main_variant=None):
     r, t = desc["release"], desc["tree"]
-    keys = sorted(n["uid"] for n in desc["variants"])
+    name_of = (lambda n: n["id"]) if desc.get("top_level_keys") == "id" else (lambda n: n["uid"])      # the name under which the tree holds a top-level variant
+    keys = sorted(name_of(n) for n in desc["variants"])
     gen_sec = {"name": "%s %s" % (r["name"], r["version"]), "family": r["name"], "version": r["version"], "arch": t["arch"],
                "platforms": ",".join(sorted(set(t["platforms"]) | {t["arch"]})), "timestamp": str(int(t["build_timestamp"])),
                "variants": ",".join(keys)}
     if keys:
         main = main_variant if main_variant is not None else keys[0]
-        node = [n for n in desc["variants"] if n["uid"] == main][0]
+        node = [n for n in desc["variants"] if name_of(n) == main][0]
         gen_sec["variant"] = main
         p = node["paths"]
         if p.get("packages") is not None:
